@@ -81,6 +81,7 @@ type Input struct {
 	Step    Step   // for f
 	Gen, N  int    // ev / end
 	Stopped []int  // sync: sources stopped so far
+	Want    []int  // sync: sources the specification says are stopped by now
 	ID      int    // syncid
 }
 
@@ -110,6 +111,7 @@ type Observed struct {
 	Inputs    []Input        `json:"-"`
 	Elapsed   time.Duration  `json:"-"`
 	Stats     map[string]int `json:"-"`
+	Spec      *spec          `json:"-"`
 }
 
 // ---- sources ------------------------------------------------------------------------------------------
@@ -428,6 +430,7 @@ type player struct {
 	barrier  map[int]bool // id → a duplicate subscription start for it is in flight without a barrier
 	probeNo  int
 	dead     bool // a wait timed out already: do not wait at full length again in this session
+	ending   string
 }
 
 var timeoutSpent int64 // nanoseconds spent in waits that timed out (whole run)
@@ -514,7 +517,12 @@ func (p *player) sync() {
 	ok := p.waitFor("quiescence (all expected messages, resolver runs and Stop calls)", func() bool { return p.caughtUp(-1) })
 	_ = ok
 	// recorded even when it timed out: the comparison then reports what is missing
-	p.inputs = append(p.inputs, Input{Kind: "sync", Stopped: p.stoppedNow()})
+	var want []int
+	for g := range p.sp.stopped {
+		want = append(want, g)
+	}
+	sortInts(want)
+	p.inputs = append(p.inputs, Input{Kind: "sync", Stopped: p.stoppedNow(), Want: want})
 	p.sp.mark(len(p.inputs))
 	for id := range p.barrier {
 		delete(p.barrier, id)
@@ -727,6 +735,7 @@ func runSession(w *world, sess Session, deadline time.Duration) *Observed {
 	}
 	if err != nil {
 		obs.Anomalies = []string{"harness: cannot dial: " + err.Error()}
+		obs.Spec = p.sp
 		return obs
 	}
 	p.conn = conn
@@ -781,6 +790,7 @@ func runSession(w *world, sess Session, deadline time.Duration) *Observed {
 	obs.Anomalies = p.anom
 	obs.Ending = p.ending
 	obs.Inputs = p.inputs
+	obs.Spec = p.sp
 	obs.Elapsed = time.Since(t0)
 	return obs
 }
